@@ -1,3 +1,6 @@
+#[cfg(feature = "verif-hooks")]
+use {crate::verif_hooks::AtomicU64, std::sync::atomic::Ordering};
+#[cfg(not(feature = "verif-hooks"))]
 use std::sync::atomic::{AtomicU64, Ordering};
 
 /// Cache statistics for monitoring hit/miss rates and performance.
